@@ -116,7 +116,7 @@ def check(run):
     want = 4000 if thorough else 700
     while len(specs) < want:
         k += 1
-        g = r.choice([None, None, None, "T", "a", "aT", "aTw", "I", "aI", "N", "TU", "Tw", "Tdef", "TNdef"])
+        g = r.choice([None, None, None, "T", "a", "aT", "aTw", "I", "aI", "N", "TU", "Tw", "Tdef", "TNdef", "TwU", "Tnd", "NT"])
         s = build(r, "E%d" % k, generics=g)
         if s is not None:
             specs.append(s)
